@@ -53,6 +53,10 @@ pub fn goals() -> Vec<String> {
         for s in *sizes {
             v.push(workload_query(w, *s));
         }
+        // goals that go on after the handler inside the same query (see c31.rs)
+        for c in super::c31::CONTINUATIONS {
+            v.push(super::c31::continuation_query(c, w, sizes[0]));
+        }
     }
     v
 }
@@ -214,6 +218,7 @@ impl Check for C30 {
 
         let t0 = vh::ticks();
         vh::set_catch_trace(true);
+        let _ = vh::take_last_interrupt_catcher();
         vh::set_tick_budget(t0 + 50 * base_ticks + 500_000);
         let (got, st) = run_armed(&mut m, &goal, policy, shrink, k, len);
         vh::set_tick_budget(u64::MAX);
@@ -221,6 +226,10 @@ impl Check for C30 {
         vh::set_catch_trace(false);
         catchers.dedup();
         let catcher = catchers.first().cloned().unwrap_or_else(|| "-".to_string());
+        // the goal that kept the resource error (the last catch/3 that received one) names the
+        // site exactly; the first catch/3 that looked at any ball is the fallback
+        let keeper = vh::take_last_interrupt_catcher();
+        let catcher = if keeper.is_empty() { catcher } else { keeper };
         let fired = st.failed > 0;
         let site = st.fail_backtrace.as_deref().map(site_of).unwrap_or_else(|| "?".into());
         out.bump("sim_ticks", vh::ticks() - t0);
@@ -246,6 +255,15 @@ impl Check for C30 {
             let caught = got.items.iter().any(|a| matches!(a, Ans::Bind(b) if b.contains(&format!("B={}", RESOURCE_FORMAL))));
             if caught {
                 out.bump("resource_error_caught_by_goal_catch", 1);
+                let want = base.items.iter().find_map(|a| if let Ans::Bind(b) = a { super::c31::binding(b, "K") } else { None });
+                if let Some(want) = want {
+                    let have = got.items.iter().find_map(|a| if let Ans::Bind(b) = a { super::c31::binding(b, "K") } else { None });
+                    out.bump("goals_after_handler_in_same_query_checked", 1);
+                    if have != Some(want) {
+                        let c = goal.split('(').next().unwrap_or("?");
+                        bad = Some(("post-handler-wrong".into(), format!("post-handler-wrong:{}@{}", c, site), format!("`{goal}` [{pname}]: growth attempt {k} failed at {site}, the error was handled by the goal's catch/3, and the goals after the handler gave K = {}; without a failure K = {want}", have.unwrap_or("<none>"))));
+                    }
+                }
             } else if last_ball.as_deref().map(|b| b.starts_with(RESOURCE_FORMAL)).unwrap_or(false) {
                 out.bump("resource_error_escaped_query", 1);
             } else if catcher != "-" {
